@@ -29,6 +29,7 @@ ASSUMPTIONS = [
 ]
 
 BASIS_CAP = 3_000_000
+CENTRE2 = {"ext": [3, 5], "batch": 2, "chans": [2, 3], "kk": [2, 1], "fext": [3, 3], "pad": "SAME", "torus": [True, False], "stride": 2, "rhs": 2, "lhs": None}
 
 
 def _dims(d):
@@ -82,6 +83,9 @@ def cases(tier, seed):
         for cell, dev in explore.cells(_dims(d), plan[d]):
             cell = dict(cell, d=d, dev=dev)
             out.append(cell)
+    # second centre: every cell within 2 deviations of a non-default corner of the option space
+    for cell, dev in explore.cells(explore.recentre(_dims(2), CENTRE2), 2):
+        out.append(dict(cell, d=2, dev=dev + 10))
     if tier == "thorough":
         dims = _dims(2)
         sub = {k: dims[k] for k in ("fext", "pad", "torus", "stride", "rhs", "lhs")}
